@@ -97,12 +97,24 @@ type c04World struct {
 	handlers map[string]*rHandlerEnv // by source pchannel
 	shards   int
 	pairs    [][4]string // (source vchannel, target vchannel, source pchannel, target pchannel) of every started channel
+	real     bool        // the manager's own startReadChannel / initReplicateChannelHandler are in use (no stub)
+	streams  *rStreams   // the fake stream creator of the manager (real plumbing)
 	info     *pb.CollectionInfo
 	db       *model.DatabaseInfo
 	ctx      context.Context
 }
 
 var c04W *c04World
+
+// c04NewRealWorld: as c04NewWorld, for check configurations WITHOUT the startReadChannel stub:
+// handlers are created by the manager's own code over a fake stream creator.
+func c04NewRealWorld(shards int) *c04World {
+	w := c04NewWorld(shards)
+	w.real = true
+	w.streams = &rStreams{chans: map[string]chan *msgstream.MsgPack{}, seeks: map[string]*msgstream.MsgPosition{}}
+	w.mgr.streamCreator = w.streams
+	return w
+}
 
 func c04NewWorld(shards int) *c04World {
 	w := &c04World{shards: shards, target: &c04Target{shards: shards, parts: map[string]int64{"_default": 1}}, meta: &c04Meta{}, handlers: map[string]*rHandlerEnv{}}
@@ -168,7 +180,12 @@ func c04StartReadChannel(r *replicateChannelManager, ctx context.Context, source
 	return nil, nil
 }
 
-func (w *c04World) shard(s int) *rHandlerEnv { return w.handlers["src-dml_"+string(rune('0'+s))] }
+func (w *c04World) shard(s int) *rHandlerEnv {
+	if w.real {
+		return &rHandlerEnv{h: w.mgr.channelHandlerMap["src-dml_"+string(rune('0'+s))]}
+	}
+	return w.handlers["src-dml_"+string(rune('0'+s))]
+}
 
 func (w *c04World) vch(s int) string { return "src-dml_" + string(rune('0'+s)) + "_100v" + string(rune('0'+s)) }
 
@@ -177,10 +194,26 @@ func (w *c04World) deliver(s int, ts uint64, m msgstream.TsMsg) {
 	pos := rPos(w.vch(s), "m", ts)
 	pack := &msgstream.MsgPack{BeginTs: ts, EndTs: ts, Msgs: []msgstream.TsMsg{m},
 		StartPositions: []*msgpb.MsgPosition{pos}, EndPositions: []*msgpb.MsgPosition{pos}}
+	if w.real {
+		// through the stream the real AddCollection goroutine reads
+		w.streams.chans[w.vch(s)] <- pack
+		for i := 0; i < 10; i++ {
+			vQuiesce() // natively: give the reader goroutine time (a not-yet-known collection costs it 500 ms)
+		}
+		return
+	}
 	w.shard(s).h.innerHandleReplicateMsg(false, api.GetReplicateMsg("src-dml_"+string(rune('0'+s)), "coll", 100, pack, "task-7"))
 }
 
 // drain lets the handlers process the packs the real code generated for them (synthetic drops)
+// newWorld picks the world matching the check configuration (REAL=1: no stub)
+func c04World4(shards int) *c04World {
+	if vParam("REAL", 0) == 1 {
+		return c04NewRealWorld(shards)
+	}
+	return c04NewWorld(shards)
+}
+
 func (w *c04World) drain() {
 	for i := 0; i < 4; i++ {
 		vQuiesce() // the handlers' own message loops consume the generated packs
@@ -225,10 +258,14 @@ func c04Partition(state pb.PartitionState) *pb.PartitionInfo {
 // any order, possibly twice, with symbolic times; trailing data follows.
 func VerifC04_DropCollection() {
 	S := vParam("S", 2)
-	w := c04NewWorld(S)
+	w := c04World4(S)
 	vAssert(w.mgr.StartReadCollection(w.ctx, w.db, w.info, nil, nil) == nil, "C04.start-ok")
 	vQuiesce()
-	vAssert(len(w.handlers) == S, "C04.harness:one-handler-per-shard")
+	if w.real {
+		vAssert(len(w.mgr.channelHandlerMap) == S, "C04.harness:one-handler-per-shard")
+	} else {
+		vAssert(len(w.handlers) == S, "C04.harness:one-handler-per-shard")
+	}
 	delivered := make([]bool, S)
 	n := 0
 	for step := 0; step < S+1 && n < S; step++ {
@@ -274,7 +311,7 @@ func VerifC04_DropCollection() {
 // one synthetic drop per shard).
 func VerifC04_DropPartition() {
 	S := vParam("S", 2)
-	w := c04NewWorld(S)
+	w := c04World4(S)
 	vAssert(w.mgr.StartReadCollection(w.ctx, w.db, w.info, nil, nil) == nil, "C04.start-ok")
 	vQuiesce()
 	restart := vBool("stopAndRestartFirst")
@@ -282,8 +319,8 @@ func VerifC04_DropPartition() {
 	targetHas := vBool("target.hasPartition")
 	if targetHas {
 		w.target.parts["p"] = 911
-		for _, env := range w.handlers {
-			env.h.collectionRecords[100].PartitionInfo["p"] = 911
+		for s := 0; s < S; s++ {
+			w.shard(s).h.collectionRecords[100].PartitionInfo["p"] = 911
 		}
 	}
 	if restart {
@@ -304,8 +341,8 @@ func VerifC04_DropPartition() {
 		vAssert(w.mgr.StartReadCollection(w.ctx, w.db, w.info, nil, nil) == nil, "C04.restart-ok")
 		vQuiesce()
 		if targetHas {
-			for _, env := range w.handlers {
-				env.h.collectionRecords[100].PartitionInfo["p"] = 911
+			for s := 0; s < S; s++ {
+				w.shard(s).h.collectionRecords[100].PartitionInfo["p"] = 911
 			}
 		}
 	}
@@ -358,8 +395,9 @@ func VerifC04_DropPartition() {
 // and leaves no spinning barrier goroutine.
 func VerifC04_Stop() {
 	S := vParam("S", 2)
-	w := c04NewWorld(S)
+	w := c04World4(S)
 	vAssert(w.mgr.StartReadCollection(w.ctx, w.db, w.info, nil, nil) == nil, "C04.start-ok")
+	vQuiesce()
 	vAssert(w.mgr.AddPartition(w.ctx, w.db, w.info, c04Partition(pb.PartitionState_PartitionCreated)) == nil, "C04.add-partition-ok")
 	vQuiesce()
 	k := vChoice("shardsThatDeliveredTheDrop", S) // 0..S-1: not all
@@ -382,7 +420,7 @@ func VerifC04_Stop() {
 // and the drop is delivered exactly once.
 func VerifC04_DropNotDeliveredBeforeStop() {
 	S := vParam("S", 2)
-	w := c04NewWorld(S)
+	w := c04World4(S)
 	vAssert(w.mgr.StartReadCollection(w.ctx, w.db, w.info, nil, nil) == nil, "C04.start-ok")
 	vQuiesce()
 	for len(w.mgr.apiEventChan) < cap(w.mgr.apiEventChan) {
@@ -508,5 +546,50 @@ func VerifC20_ReaderEvents() {
 		vAssert(ev.CollectionInfo == w.info && ev.ReplicateParam.Database == "db", "C20.drop-collection-request-carries-the-source-collection")
 		vAssert(ev.ReplicateInfo != nil && ev.ReplicateInfo.IsReplicate && ev.ReplicateInfo.MsgTimestamp >= t2, "C20.drop-collection-request-is-stamped-not-before-the-drop-message")
 	}
+	vReach("end")
+}
+
+// ---- partition registered while the stream registration of some shards is still pending ----
+
+var (
+	c04HoldShard string        // source pchannel whose AddCollection is held
+	c04HoldGate  chan struct{} // closed to let it go on
+)
+
+// hook before (*replicateChannelHandler).AddCollection
+func c04HookBeforeAddCollection(h *replicateChannelHandler, taskID string, sourceInfo *model.SourceCollectionInfo, targetInfo *model.TargetCollectionInfo) {
+	if c04HoldGate != nil && sourceInfo.PChannel == c04HoldShard {
+		<-c04HoldGate
+	}
+}
+
+// VerifC04_PartitionRegisteredWhileShardsPending (real plumbing only): the reader lists the
+// collection and right after it its partition; the stream registration of one shard (a
+// goroutine that opens the stream) has not finished yet when the partition is registered.
+// The partition's drop must still wait for every shard and be issued exactly once.
+func VerifC04_PartitionRegisteredWhileShardsPending() {
+	S := 2
+	w := c04NewRealWorld(S)
+	w.target.parts["p"] = 911
+	c04HoldShard, c04HoldGate = "src-dml_1", make(chan struct{})
+	vAssert(w.mgr.StartReadCollection(w.ctx, w.db, w.info, nil, nil) == nil, "C04.start-ok")
+	vQuiesce() // shard 0 is registered, shard 1 is still opening its stream
+	errAdd := w.mgr.AddPartition(w.ctx, w.db, w.info, c04Partition(pb.PartitionState_PartitionCreated))
+	close(c04HoldGate)
+	vQuiesce()
+	c04HoldGate = nil
+	if errAdd != nil {
+		// refusing (the reader reports the error and the task is paused) is a safe answer
+		vReach("end")
+		return
+	}
+	// the partition is dropped upstream: shard 0 reads the drop message first
+	w.deliver(0, 500, rDropPartition(100, 11, "p", 500, rPos(w.vch(0), "dropp", 500)))
+	vQuiesce()
+	vAssert(len(w.events(api.ReplicateDropPartition)) == 0, "C04.no-drop-request-before-every-shard-reached-the-drop")
+	w.deliver(1, 501, rDropPartition(100, 11, "p", 501, rPos(w.vch(1), "dropp", 501)))
+	vQuiesce()
+	vAssert(len(w.events(api.ReplicateDropPartition)) == 1, "C04.exactly-one-drop-partition-request")
+	vAssert(len(w.events(api.ReplicateError)) == 0, "C04.no-error-for-a-partition-drop-read-on-every-shard")
 	vReach("end")
 }
